@@ -10,6 +10,7 @@ from fv import pyimpl, space
 from fv.claims import CLAIMS
 
 ID = "C18"
+CASE_TIMEOUT_S = 2400  # per-case alarm (seconds); a case that does not finish is reported as a violation
 LEVEL = "model_checking"
 TECHNIQUE = CLAIMS[ID]["technique"]
 RULE = (
